@@ -174,15 +174,49 @@ def parse_obs(text):
     return out
 
 
+def run_watch(cmd, case_limit, total_limit):
+    """run the harness with a per-case watchdog: it prints `CASE id` before and `END id` after
+    every case (flushed); when no line arrives for [case_limit] seconds the process is killed.
+    -> (rc, text); rc 124 = killed by the watchdog"""
+    import threading
+    p = subprocess.Popen(cmd, stdout=subprocess.PIPE, stderr=subprocess.DEVNULL)
+    buf = []
+    last = [time.time()]
+
+    def reader():
+        for line in p.stdout:
+            buf.append(line)
+            last[0] = time.time()
+    t = threading.Thread(target=reader, daemon=True)
+    t.start()
+    t0 = time.time()
+    killed = False
+    while p.poll() is None:
+        time.sleep(0.05)
+        now = time.time()
+        if now - last[0] > case_limit or now - t0 > total_limit:
+            p.kill()
+            killed = True
+            break
+    p.wait()
+    t.join(timeout=5)
+    text = b"".join(buf).decode("utf-8", "replace")
+    return (124 if killed else p.returncode), text
+
+
+CASE_LIMIT = {"release": 40, "debug": 120}
+
+
 def run_impl_shard(exe, path, ncases, timeout):
-    """run the harness; if the process dies (abort / signal) note it on the case that was running
-    and resume after it"""
+    """run the harness; if the process dies (abort / signal) or a case hangs (watchdog) note it on
+    the case that was running and resume after it"""
     obs = {}
     skip = 0
     guard = 0
+    limit = CASE_LIMIT["debug" if "/debug/" in exe else "release"]
     while skip < ncases and guard < 50:
         guard += 1
-        rc, out = sh([exe, path, str(skip)], timeout=timeout)
+        rc, out = run_watch([exe, path, str(skip)], limit, timeout)
         part = parse_obs(out)
         done = 0
         for cid, lines in part.items():
@@ -257,7 +291,7 @@ def tag_of(line):
 
 
 def relevant(lines, tags):
-    return [l for l in lines if tag_of(l) in tags or l.startswith("#") or l.startswith("!")]
+    return [l for l in lines if tag_of(l) in tags or l.startswith("#") or l.startswith("!") or l.startswith("SKIP")]
 
 
 def correspondence(cases, impl, model, tags):
